@@ -418,6 +418,20 @@ def decoder_new(I, args, kwargs, node):
 
 @extern_method('hpack.hpack.Encoder', 'encode')
 def encoder_encode(I, ref, o, args, kwargs, node):
+    from . import hdrmodel
+    if hdrmodel.is_hdr(I, args[0]):
+        def partial(k):
+            I.g_enc = I.g_enc + z3.If(k > 0, 1, 0)
+            I.g_enc_log.append(('encode-partial', k))
+        t, cnt = hdrmodel.consume(I, args[0], node, consumer=partial)
+        I.g_enc = I.g_enc + z3.If(cnt > 0, 1, 0)
+        I.g_enc_log.append(('encode', cnt))
+        I.last_encoded = t
+        out = I.new_abs('hblock')
+        I.assume(z3.Implies(cnt > 0, I.s_len(out) >= 1))
+        I.assume(z3.Implies(cnt == 0, I.s_len(out) == 0))
+        I.ghost_blocks.append((t, out))
+        return out
     n = 0
     items = []
     try:
@@ -589,3 +603,21 @@ def sym_frame(I, desc, name):
         f['flag_byte'] = rng('flag_byte', 0, 255)
         f['body'] = byts('body')
     return I.heap.alloc(Obj(HF + cls, f))
+
+
+@extern_method('hpack.hpack.Decoder', 'decode')
+def decoder_decode(I, ref, o, args, kwargs, node):
+    """ASSUMED: decode(block, raw=True) returns SOME list of byte pairs (any
+    list: the peer chooses the block) or raises an HPACKError subclass;
+    OversizedHeaderListError is one of them.  The decoder context advances in
+    every case in which the block was consumed."""
+    from . import hdrmodel
+    I.g_dec = I.g_dec + 1
+    sel = I.fresh('hpack_outcome', 'int')
+    c = I.choose([sel == 0, sel == 1, z3.And(sel != 0, sel != 1)], 'hpack-decode',
+                 names=['ok', 'oversized', 'malformed'])
+    if c == 1:
+        I.raise_builtin('hpack.exceptions.OversizedHeaderListError', node=node)
+    if c == 2:
+        I.raise_builtin('hpack.exceptions.HPACKDecodingError', node=node)
+    return hdrmodel.sym_hdrlist(I, 'hdrlist', 'decoded_headers')
